@@ -15,27 +15,37 @@ import (
 	"golang.org/x/tools/go/ssa"
 )
 
-// autoAlias names every call result in fn `<callee>#<ordinal>` so that terms stay readable.
+// autoAlias names every call result in fn `<callee>#<ordinal>` so that terms stay readable. The
+// calls of predicate helpers that path enumeration looks through are numbered in sequence at
+// the position of the helper call, so extracting a condition into a helper keeps the names.
 func autoAlias(fn *ssa.Function) func() {
 	counts := map[string]int{}
 	var undo []func()
-	for _, b := range fn.Blocks {
-		for _, in := range b.Instrs {
-			c, ok := in.(*ssa.Call)
-			if !ok {
-				continue
+	var visit func(f *ssa.Function, depth int)
+	visit = func(f *ssa.Function, depth int) {
+		for _, b := range f.Blocks {
+			for _, in := range b.Instrs {
+				c, ok := in.(*ssa.Call)
+				if !ok {
+					continue
+				}
+				n := calleeName(c)
+				if n == "len" || n == "cap" || n == "append" || n == "copy" {
+					continue
+				}
+				if depth < 3 && isBranchPredicate(c) {
+					visit(c.Call.StaticCallee(), depth+1)
+					continue
+				}
+				if i := strings.LastIndexAny(n, "./)"); i >= 0 {
+					n = n[i+1:]
+				}
+				counts[n]++
+				undo = append(undo, alias(c, fmt.Sprintf("%s#%d", n, counts[n])))
 			}
-			n := calleeName(c)
-			if n == "len" || n == "cap" || n == "append" || n == "copy" {
-				continue
-			}
-			if i := strings.LastIndexAny(n, "./)"); i >= 0 {
-				n = n[i+1:]
-			}
-			counts[n]++
-			undo = append(undo, alias(c, fmt.Sprintf("%s#%d", n, counts[n])))
 		}
 	}
+	visit(fn, 0)
 	return func() {
 		for _, u := range undo {
 			u()
@@ -657,7 +667,7 @@ func exitTestKind(l *Loop, ifi *ssa.If, stayOnTrue bool) (string, string) {
 		for _, in := range blk.Instrs {
 			switch v := in.(type) {
 			case *ssa.Call:
-				if _, isB := v.Call.Value.(*ssa.Builtin); !isB {
+				if _, isB := v.Call.Value.(*ssa.Builtin); !isB && !storesNothing(v.Call.StaticCallee(), 0) {
 					bodyCalls = true
 				}
 			case *ssa.Store:
@@ -882,7 +892,7 @@ func propC05(r *Run, w *World) {
 			for _, a := range Writes(w.FieldAccesses(fv)) {
 				okw := fns[fnName(a.Fn)]
 				if a.Kind == "mapupdate" && fv == x.fData {
-					okw = okw && a.Fn == x.data
+					okw = okw && x.w.ownedBy(a.Fn, x.data)
 				}
 				r.Check(okw, "AuditMessage."+fv.Name()+" "+a.Kind+" in "+fnName(a.Fn), a.Instr.Pos(), "", "AuditMessage."+fv.Name()+" is written ("+a.Kind+") in "+fnName(a.Fn)+": the memoised result can change between calls")
 			}
@@ -890,10 +900,10 @@ func propC05(r *Run, w *World) {
 		// auditRuleKeyNew reachable only from enrichData ← Data
 		if akn, err := w.Method("auparse", "AuditMessage", "auditRuleKeyNew"); err == nil {
 			for _, s := range w.CallSites(akn) {
-				r.Check(s.Caller == x.enrich && s.Kind == "static", "caller of auditRuleKeyNew: "+fnName(s.Caller), s.Instr.Pos(), "", "tags can be rewritten outside the first Data() call")
+				r.Check(x.w.ownedBy(s.Caller, x.enrich) && s.Kind == "static", "caller of auditRuleKeyNew: "+fnName(s.Caller), s.Instr.Pos(), "", "tags can be rewritten outside the first Data() call")
 			}
 			for _, s := range w.CallSites(x.enrich) {
-				r.Check(s.Caller == x.data && s.Kind == "static", "caller of enrichData: "+fnName(s.Caller), s.Instr.Pos(), "", "enrichData runs outside the first Data() call")
+				r.Check(x.w.ownedBy(s.Caller, x.data) && s.Kind == "static", "caller of enrichData: "+fnName(s.Caller), s.Instr.Pos(), "", "enrichData runs outside the first Data() call")
 			}
 		} else {
 			r.Anchor(err)
@@ -901,7 +911,7 @@ func propC05(r *Run, w *World) {
 		// offset/RawData writers: only the literal in Parse (lemma offset-invariant premise)
 		for _, fv := range []*types.Var{x.fOffset} {
 			for _, a := range Writes(w.FieldAccesses(fv)) {
-				r.Check(a.Fn == x.parse && a.Kind == "store", "AuditMessage."+fv.Name()+" written in "+fnName(a.Fn), a.Instr.Pos(), "", "offset is written outside Parse's literal")
+				r.Check(x.w.ownedBy(a.Fn, x.parse) && a.Kind == "store", "AuditMessage."+fv.Name()+" written in "+fnName(a.Fn), a.Instr.Pos(), "", "offset is written outside Parse's literal")
 			}
 		}
 		// Tags = Data's error + m.tags
@@ -1071,7 +1081,7 @@ func propC12(r *Run, w *World) {
 			r.Check(strings.Join(got, "|") == "-1|4294967295" && okEff, "unset ids", nu.Pos(), "", fmt.Sprintf("unset spellings are %q or the value is not replaced by 'unset'", got))
 			var keys []string
 			for _, s := range w.CallSites(nu) {
-				if s.Caller != x.enrich {
+				if !x.w.ownedBy(s.Caller, x.enrich) {
 					r.Fail("normalizeUnsetID called from "+fnName(s.Caller), s.Instr.Pos(), "")
 					continue
 				}
@@ -1122,13 +1132,19 @@ func propC12(r *Run, w *World) {
 			}
 			// the tested value is the lower-cased field value; HasPrefix tests "suc"
 			okT := true
-			for _, c := range callsNamedIn(res, "strings.HasPrefix") {
-				s, _ := constString(c.Common().Args[1])
-				okT = okT && s == "suc" && Term(c.Common().Args[0]) == "ToLower#1"
-			}
-			for _, c := range callsNamedIn(res, "strings.ToLower") {
-				okT = okT && strings.HasSuffix(Term(c.Common().Args[0]), ".value")
-			}
+			nT := 0
+			eachInlined(res, func(f *ssa.Function) {
+				for _, c := range callsNamedIn(f, "strings.HasPrefix") {
+					s, _ := constString(c.Common().Args[1])
+					okT = okT && s == "suc" && Term(c.Common().Args[0]) == "ToLower#1"
+					nT++
+				}
+				for _, c := range callsNamedIn(f, "strings.ToLower") {
+					okT = okT && strings.HasSuffix(Term(c.Common().Args[0]), ".value")
+					nT++
+				}
+			})
+			okT = okT && nT == 2
 			r.Check(okT, "result tests the lower-cased value", res.Pos(), "", "result() does not test strings.ToLower(field.value) against yes/1/suc")
 			undo()
 		}
